@@ -170,7 +170,27 @@ def c16(run):
         "constructors are NULL-checked (R-ALLOC-NULL).")
 
 
+def c15(run):
+    from rules import r_replay, r_shift
+    P = run.prog('rel')
+    r_shift.run(run, P, units=('oscore.c', 'oscore_cbor.c'))
+    r_replay.run_own(run, P)
+    r_replay.run_rb(run, P)
+    r_replay.run_must(run, P)
+    run.min_instances('R-RANGE', 4)
+    run.min_instances('R-REPLAY-OWN', 8)
+    run.min_instances('R-REPLAY-RB', 5)
+    run.assumptions = ASSUME_COMMON + ["acceptance over histories and sender-sequence reuse across restarts (next_seq / ssn_freq arithmetic) are NOT decided"]
+    return run.finish(
+        "Anti-replay state discipline: shift counts derived from sequence numbers / CBOR are proven below the operand width (R-RANGE); the "
+        "replay fields are written only by the window functions and the constructor (R-REPLAY-OWN); everything the validation modifies is "
+        "snapshotted and restored on every path of the roll-back, and every failure exit between validation and authentication rolls back "
+        "(R-REPLAY-RB); every accepted request passed a successful validation (R-REPLAY-MUST). Seven genuine defects of the current tree are "
+        "listed in known_findings.txt and re-observed on every run.")
+
+
 PROPS = {
+    'C15': c15,
     'C16': c16,
     'C05': c05,
     'C01': c01,
